@@ -67,6 +67,33 @@ fn cases_for_row(isa: &Isa, row: usize, pc: u32, out: &mut Vec<Case>) {
                 out.push(c);
             }
         }
+        // every address register and several data registers (a charge must not depend on the register number)
+        if matches!(shape.mode, Mode::Ind | Mode::Inc | Mode::D16 | Mode::D24) {
+            for ra in 0..8u8 {
+                for dreg in [0u8, 5, 7, 9, 15] {
+                    let mut f = default_fields(sz);
+                    f.bitn = 3;
+                    f.ra = ra;
+                    let d = if sz == Sz::L { dreg & 7 } else { dreg };
+                    f.rs = d;
+                    f.rd = d;
+                    f.rn = dreg;
+                    if shape.mode == Mode::D16 {
+                        f.data = 0x0020;
+                    }
+                    if shape.mode == Mode::D24 {
+                        f.data = 0x000200;
+                    }
+                    let ea = OPND_AREAS[(ra as usize + dreg as usize) % 3] + 0x40 + 0x10 * ra as u32;
+                    if ea.wrapping_sub(pc) < 0x40 {
+                        continue;
+                    }
+                    let base = base_for(&shape, ea, f.data, 0x00);
+                    let c = build_case(isa, row, &f, &shape, base, 0x5a5a_5a5a, if shape.load { Some(ea) } else { None }, pc, 0x00, &regs);
+                    out.push(c);
+                }
+            }
+        }
         // +/- forms whose register points at the first byte after on-chip RAM: the access itself is in RAM
         if shape.mode == Mode::Inc && shape.predec {
             let mut f = default_fields(sz);
@@ -85,10 +112,14 @@ fn cases_for_row(isa: &Isa, row: usize, pc: u32, out: &mut Vec<Case>) {
     };
     match sem {
         Sem::Mov { sz, .. } | Sem::Alu2 { sz, .. } | Sem::Alu1 { sz, .. } => {
-            for v in [0u32, 1, 0x7fff_ffff, 0xffff_ffff, 0x8080_8080] {
+            for (k, v) in [0u32, 1, 0x7fff_ffff, 0xffff_ffff, 0x8080_8080, 0x0000_00fe, 0x0001_0000, 0x1234_5678].into_iter().enumerate() {
                 let mut f = Fields::default();
-                f.rd = 2;
-                f.rs = 1;
+                f.rd = (2 + 3 * k as u8) & 15;
+                f.rs = (1 + 5 * k as u8) & 15;
+                if sz == Sz::L {
+                    f.rd &= 7;
+                    f.rs &= 7;
+                }
                 f.data = v ^ 0x5555_5555;
                 let mut c = mk(&f);
                 set_r(&mut c.er, sz, f.rd, v);
@@ -129,8 +160,8 @@ fn cases_for_row(isa: &Isa, row: usize, pc: u32, out: &mut Vec<Case>) {
             }
         }
         Sem::Bcc { wide } => {
-            for cc in [0u8, 1, 6, 7] {
-                for ccr in [0x00u8, 0x04] {
+            for cc in 0..16u8 {
+                for ccr in [0x00u8, 0x04, 0x0a, 0x0f] {
                     let mut f = Fields::default();
                     f.cc = cc;
                     f.data = if wide { 0x0100 } else { 0x10 };
@@ -210,7 +241,7 @@ pub fn c20(_tier: Tier, _seed: u64) -> Prop {
         units.push(Unit::new(
             &format!("{}", name),
             1,
-            "benign operands (2-5 value variants) x code in on-chip RAM / DRAM / vector area x operand, stack, vector in on-chip RAM / DRAM / vector area x 6 bus-controller settings; pre-decrement forms also with the register at the first byte after on-chip RAM",
+            "benign operands (2-8 value variants, all address registers x 5 data registers for register-indirect forms, all 16 conditions for Bcc) x code in on-chip RAM / DRAM / vector area x operand, stack, vector in on-chip RAM / DRAM / vector area x 6 bus-controller settings; pre-decrement forms also with the register at the first byte after on-chip RAM",
             move |ctx, _| {
                 ctx.cycles_only = true;
                 for &pc in CODE_AREAS.iter() {
